@@ -281,7 +281,7 @@ func TestC07Contract(t *testing.T) {
 			vt.ReportKnown("C07", c07RestartKey)
 		}
 	}()
-	rapid.Check(t, func(rt *rapid.T) {
+	check(t, func(rt *rapid.T) {
 		fee := rapid.SampledFrom([]string{"", "const", "prop"}).Draw(rt, "fee")
 		var min *big.Int
 		switch rapid.IntRange(0, 2).Draw(rt, "min") {
